@@ -188,6 +188,26 @@ def run(check: Check) -> None:
         for intercept in (True, False):
             for cluster in ((False, True) if (thorough or len(fam) < 3) else (rng.random() < 0.3,)):
                 cases.append((fam, intercept, cluster, None))
+    # the same families with the factors of every term written in another order (term identity must not depend on it):
+    # a sub-interaction spelled 'A:B' in one term and 'B:A' inside a later, larger one
+    def permuted(fam):
+        out = []
+        for t in fam:
+            fs = t.split(":")
+            rng.shuffle(fs)
+            out.append(":".join(fs))
+        return tuple(out)
+
+    perm_src = [f for f in fams if len(f) >= 2 and any(":" in t for t in f)]
+    rng.shuffle(perm_src)
+    for fam in (perm_src if thorough else perm_src[:260]):
+        pf = permuted(fam)
+        if pf != fam:
+            cases.append((pf, True, False, None))
+            cases.append((pf, False, rng.random() < 0.5, None))
+    for fam in [("A:B", "B:A:D"), ("D:A", "A:B:D"), ("a:A:B", "a:B:A:D"), ("B:A", "D", "D:B:A"), ("A:D", "B:D", "D:A:B")]:
+        cases.append((fam, True, False, None))
+        cases.append((fam, False, False, None))
     contrasts = ["sum", "helmert", "diff", "poly", "treatment"] if thorough else ["sum", "helmert"]
     two = [(t,) for t in terms] + list(itertools.permutations(terms, 2))
     for ct in contrasts:
